@@ -262,7 +262,7 @@ PROPS = {
              COMMON_ASSUME + ["an octetArray value may be rendered as a decimal list, hex (with or without 0x), base64 or raw bytes"],
              "runtime monitor: in-package recorder (go -overlay) + offline sliding-window model over unique message ids; race detector",
              extra_build=_c20_build),
-    "C18": P(False, (16, 16), 16, (1500, 7200), 60, 50, "exploration",
+    "C18": P(False, (16, 16), 16, (1500, 7200), 50, 40, "exploration",
              "one evaluation = one cell of the matrix, with certificates generated per run by the harness's factory (ECDSA P-256, controlled "
              "validity and SANs). TLS, real exporter vs real collector: server certificate {trusted, other CA, self-signed, expired, "
              "not-yet-valid, wrong SAN, no SAN} x ServerName {unset (address used), matching, mismatching}; client certificate {none, "
